@@ -421,6 +421,26 @@ void run_string(const Case &c, pbt::Ctx &ctx, Trace &tr) {
         Units          &mo = model[1 - w];
         const bool      nonempty_before = !m.empty();
         const char     *name = "";
+        if (g_gen2 && (step == 4 || step == 11) && !c.bytes.empty() && (c.bytes.back() % 8) == 2 && !m.empty() && s.First() != nullptr) {
+            // the string assigned / appended from a C string that is its own tail (s = s.First() + k): the units from k up to the first NUL
+            const size_t k = size_t(c.bytes[0]) % m.size();
+            Units        tail;
+            for (size_t i = k; i < m.size() && m[i] != 0; ++i) {
+                tail.push_back(m[i]);
+            }
+            if ((c.bytes.back() & 8) != 0) {
+                s = static_cast<const Char_T *>(s.First() + k);
+                m = tail;
+                tr.add("assign own tail (C string)");
+            } else {
+                s += static_cast<const Char_T *>(s.First() + k);
+                m.insert(m.end(), tail.begin(), tail.end());
+                tr.add("append own tail (C string)");
+            }
+            ctx.label("string:own-tail-as-c-string");
+            check_string(s, m, "assign / append of the string's own tail as a C string", ctx);
+            continue;
+        }
         switch (e.below(26)) {
             case 0: {
                 name    = "assign String(ptr,len)";
